@@ -250,12 +250,16 @@ def gen_world(rng):
     return w
 
 
-def build_arrays(w):
+def build_arrays(w, only=None, gen=0):
+    """Arrays of every setup (or of setup `only`); `gen` > 0 gives the next record of the same kind: same shapes, dtype
+    and sampling, other content."""
     out = []
     for i, s in enumerate(w["setups"]):
+        if only is not None and i != only:
+            continue
         arrs = []
         for j in range(len(s["ndat"])):
-            a = datagen.resonator_record(w["seed"] + 104729 * i + 7919 * j, s["ndat"][j], s["nch"][j], w["fs"],
+            a = datagen.resonator_record(w["seed"] + 104729 * i + 7919 * j + 15485863 * gen, s["ndat"][j], s["nch"][j], w["fs"],
                                          nmodes=2, trend=(j + i) % 2 == 0)
             lay = w.get("layout", "C")
             if lay == "F":
@@ -391,6 +395,7 @@ class World:
         self.user_hash = [[h_array(a) for a in arrs] for arrs in self.arrays]
         self.setups = [make_setup(s, self.arrays[i], user_fs(w)) for i, s in enumerate(w["setups"])]
         self.algs = []
+        self.record_gen = {}  # setup index -> how many records of that kind have been analysed before the current one
         self.user_shared_params = {}  # id -> parameter object that the user handed to more than one algorithm
         for a in w["algs"]:
             self.algs.append(make_alg(a, self.algs))
@@ -625,7 +630,7 @@ def gen_swarm(rng, mode, tier="quick"):
          "mpe": rng.choice([2, 3, 4]), "set_params": rng.choice([0.5, 1, 2]), "preproc": rng.choice([0, 0.5, 1.5]),
          "save": rng.choice([0, 0.5, 1]), "load_check": rng.choice([0, 0.5, 1]), "restart": rng.choice([0, 0.5, 1]),
          "save_crash": rng.choice([0, 0.3, 0.8]), "poser": rng.choice([0.5, 1, 2]) if mode != "preger" else 0,
-         "bare_gate": rng.choice([0, 0.3])}
+         "bare_gate": rng.choice([0, 0.3]), "new_record": rng.choice([0, 0, 0.4, 1.0]) if mode != "poser" else 0}
     r = rng.random()
     nops = rng.randint(3, 5) if r < 0.3 else rng.randint(5, 8) if r < 0.75 else rng.randint(8, 12)
     if tier == "thorough" and rng.random() < 0.25:
@@ -646,6 +651,16 @@ def gen_op(rng, wd: World, swarm, step, script):
         k = rng.choices(ks, weights=[W[x] for x in ks])[0]
         si = rng.randrange(nset)
         mem = wd.members(si)
+        if k == "new_record":
+            ran = [i for i in mem if wd.st[i].ran]
+            if not ran:
+                continue  # moving on to the next record only means something after an analysis
+            # the usual loop: the same algorithms (same classes, same parameters) on the next record
+            again = sorted(mem)
+            script.append(lambda r, wd2, si=si, again=again: {"op": "add", "setup": si, "algs": again})
+            nm = w["algs"][rng.choice(ran)]["name"]
+            script.append(lambda r, wd2, si=si, nm=nm: {"op": "run", "setup": si, "name": nm} if r.random() < 0.7 else {"op": "run_all", "setup": si})
+            return {"op": "new_record", "setup": si}
         if not mem and k in ("run", "run_all", "mpe", "save", "restart", "save_crash") and rng.random() < 0.85:
             k = "add"  # nothing to act on yet: most of the time register something first
         if k in ("run", "mpe") and mem and rng.random() < 0.5:
@@ -1098,6 +1113,47 @@ def apply_op(wd: World, op, step):
         outcome = _do_save(wd, op, step)
     elif k == "load_check":
         outcome = _do_load_check(wd, op, step)
+    elif k == "new_record":
+        # the user is done with this record: the setup, its algorithms and its arrays are dropped (really dropped: the
+        # harness lets go of every reference and collects), and the next record of the same kind - same shapes, same
+        # sampling, same algorithm classes and parameters - is analysed in new objects. Whatever the package remembers
+        # about the old objects (by identity, say) must not reach the new ones.
+        import gc
+
+        sj = op["setup"]
+        wd.record_gen[sj] = wd.record_gen.get(sj, 0) + 1
+        nxt = build_arrays(w, only=sj, gen=wd.record_gen[sj])[0]  # content of the next record, built beforehand
+        old_ids = {id(a_) for a_ in wd.arrays[sj]}
+        wd.refs.clear()
+        before = None
+        wd.setups[sj] = None
+        for i, a_ in enumerate(w["algs"]):
+            if a_["home"] == sj or wd.st[i].added_to == sj:
+                wd.algs[i] = None
+        wd.arrays[sj] = None
+        gc.collect()
+        # address reuse is the allocator's choice, i.e. the simulator's: where it can, the new record's array object
+        # lands exactly where the old one lived (what CPython does on its own in a plain `for record in stream:` loop)
+        new = []
+        for a_ in nxt:
+            pool = []
+            hit = None
+            for _ in range(256):
+                c_ = a_.copy(order="K")
+                if id(c_) in old_ids:
+                    hit = c_
+                    break
+                pool.append(c_)
+            if hit is not None:
+                wd.inc("probe.new_array_at_the_address_of_the_old_one")
+            new.append(hit if hit is not None else pool[0])
+            del pool
+        del nxt
+        wd.arrays[sj] = new
+        wd.user_hash[sj] = [h_array(a_) for a_ in wd.arrays[sj]]
+        _fresh_setup(wd, sj)
+        wd.inc("probe.next_record_in_new_objects")
+        before = wd.snapshot()
     elif k == "restart":
         outcome = _do_restart(wd, op, step)
         if wd.stop:
